@@ -500,11 +500,10 @@ def _pure(e) -> bool:
 
 
 def inline_new_locals(fnode, ref: dict) -> int:
-    refl = set(ref.get("locals", []))
-    cur = local_names(fnode)
-    unknown = [x for x in cur if x not in refl and x != "_"]
-    missing = [x for x in ref.get("locals", []) if x not in cur and x != "_"]
-    surplus = len(unknown) - len(missing)
+    from .normalise import match_locals
+    _pairs, unknown = match_locals(fnode, ref)
+    unknown = [x for x in unknown if x != "_"]
+    surplus = len(unknown)
     if surplus <= 0:
         return 0
     done = 0
